@@ -32,6 +32,8 @@ class Recorder(object):
         self.nwrite = 0
         self.fired = False
         self.tmpdir = os.path.join(root, "tmp")
+        self.tmpnames = set()       # paths handed out by mkstemp (relative to root)
+        self.intended = b""         # everything the serializer handed to the temporary file
         self.base = self.listing()
 
     # ---- snapshots ----
@@ -52,7 +54,7 @@ class Recorder(object):
             return "absent"
         if self.old is not None and content == self.old:
             return "old"
-        if self.new is not None and content == self.new:
+        if (self.new is not None and content == self.new) or (self.intended and content == self.intended):
             return "new"
         if self.new is None:
             return "unknown"
@@ -61,9 +63,11 @@ class Recorder(object):
     def snap(self):
         now = self.listing()
         rel = os.path.relpath(self.named, self.root)
+        def is_tmp(k):
+            return k.startswith("tmp" + os.sep) or k in self.tmpnames
         others = sorted(k for k in set(now) | set(self.base)
-                        if k != rel and not k.startswith("tmp" + os.sep) and now.get(k) != self.base.get(k))
-        tmp = sorted(k for k in now if k.startswith("tmp" + os.sep))
+                        if k != rel and not is_tmp(k) and now.get(k) != self.base.get(k))
+        tmp = sorted(k for k in now if is_tmp(k))
         return {"named": self.named_state(now.get(rel)), "others": others, "ntmp": len(tmp)}
 
     def event(self, ev, **kw):
@@ -89,6 +93,8 @@ class WriteProxy(object):
         r = self._rec
         r.nwrite += 1
         k = r.nwrite
+        if self._role == "tmp":
+            r.intended += data if isinstance(data, bytes) else data.encode("utf-8")
         if r.should_fail("write", k):
             short = r.fault.get("short", "none")
             n = {"none": 0, "half": len(data) // 2, "most": max(len(data) - 1, 0)}[short]
@@ -152,7 +158,9 @@ def run_save(doc, fmt, name_class, existing, cross_fs, fault, args=None):
 
     def p_mkstemp(*a, **kw):
         fd, name = real["mkstemp"](*a, **kw)
-        rec.event("mkstemp", samedir=os.path.dirname(os.path.abspath(name)) == os.path.dirname(named))
+        rec.tmp_samedir = os.path.dirname(os.path.abspath(name)) == os.path.dirname(named)
+        rec.tmpnames.add(os.path.relpath(os.path.abspath(name), root))
+        rec.event("mkstemp", samedir=rec.tmp_samedir)
         return fd, name
 
     def p_fdopen(fd, mode="r", *a, **kw):
@@ -169,7 +177,8 @@ def run_save(doc, fmt, name_class, existing, cross_fs, fault, args=None):
         return f
 
     def p_rename(src, dst, *a, **kw):
-        if cross_fs:
+        # the default temporary directory is on another file system iff cross_fs
+        if cross_fs and not getattr(rec, "tmp_samedir", False):
             raise OSError(errno.EXDEV, "injected: cross-device link")
         if rec.should_fail("move"):
             rec.event("move", failed=True)
@@ -179,7 +188,7 @@ def run_save(doc, fmt, name_class, existing, cross_fs, fault, args=None):
         return r
 
     def p_replace(src, dst, *a, **kw):
-        if cross_fs:
+        if cross_fs and not getattr(rec, "tmp_samedir", False):
             raise OSError(errno.EXDEV, "injected: cross-device link")
         if rec.should_fail("move"):
             rec.event("move", failed=True)
@@ -190,6 +199,10 @@ def run_save(doc, fmt, name_class, existing, cross_fs, fault, args=None):
 
     def p_copyfile(src, dst, *a, **kw):
         # the cross-device fallback of shutil.move: copy chunk by chunk, observed
+        if rec.fault.get("at") == "move" and rec.fired:
+            # the injected failure of the move: shutil.move treats a failing rename as
+            # "other device" and falls back to copying, so the fallback fails as well
+            raise Injected(errno.EACCES, "injected move failure")
         rec.event("copy_begin")
         with real["open"](src, "rb") as fsrc:
             data = fsrc.read()
